@@ -1602,7 +1602,7 @@ def c12(ctx):
             break
     # promptness of stop where the search thread is NOT at a sync point: capture-heavy positions whose quiescence trees run for
     # minutes; `go infinite`, stop after 50-400 ms, the bestmove must follow within the bound
-    bound = 3.0
+    bound = 5.0
     heavy = ['qqqqkqqq/qqqqqqqq/8/8/8/8/QQQQQQQQ/QQQQKQQQ w - - 0 1', 'qqqqkqqq/qqqqqqqq/8/8/8/8/QQQQQQQQ/QQQQKQQQ b - - 0 1',
              'rrqqkqrr/qqqqqqqq/8/8/8/8/QQQQQQQQ/RRQQKQRR w - - 0 1', 'qrbnkbrq/pppppppp/8/8/8/8/PPPPPPPP/QRBNKBRQ w - - 0 1',
              'qqqqkqqq/pppppppp/8/8/8/8/PPPPPPPP/QQQQKQQQ w - - 0 1', '3qk1q1/q2q3q/1q6/8/8/1Q6/Q2Q3Q/3QK1Q1 w - - 0 1']
@@ -1644,7 +1644,7 @@ def c12(ctx):
             'protocol_schedules_vs_model': len(pcases), 'protocol_schedule_stats': pstats, 'protocol_state_mismatches': proto_bad,
             'rule': 'PROTO: random interleavings of go/stop/isready/other with search-thread progress, shared state (running flag, pending stop, bestmoves, readyoks, '
                     'interruption flag, phase) after every step against Protocol.step; stop latency on capture-heavy positions (real binary, stop 50-400 ms after go infinite, '
-                    'bestmove within 3 s); interleavings: command words {stop, isready, stop stop, isready stop, stop isready} x search-thread phases {entered, after root move k of iteration d, iteration '
+                    'bestmove within 5 s); interleavings: command words {stop, isready, stop stop, isready stop, stop isready} x search-thread phases {entered, after root move k of iteration d, iteration '
                     'done, before bestmove, after bestmove} (d<=%d, k<%d) x go form, then isready and another go; every command has a liveness deadline; plus commands with no search '
                     'alive; non-trivial = distinct (phase, command word, go form)' % (maxd, maxk),
             'schedules': len(rows), 'race_detector_reports': races, 'traces_validated_against_impl': len(rows),
@@ -1985,7 +1985,7 @@ def c19(ctx):
             fth.join(10 if state.startswith('huge') else 3)
             t = tbox[0]
             try:
-                rc = p.wait(3 + (4 if state == 'perft' else 0) + (6 if state.startswith('huge') else 0))
+                rc = p.wait(6 + (4 if state == 'perft' else 0) + (6 if state.startswith('huge') else 0))
                 el = time.time() - t
             except subprocess.TimeoutExpired:
                 rc = None
